@@ -106,6 +106,79 @@ type auxScanner struct {
 	processors.DefaultTagScanDefinitionRegistryPostProcessor
 }
 
+// ---- loggers ----------------------------------------------------------------------------------------
+
+// prefLogger is the container logger of this driver, installed through syslog.SetLogger: it prints nothing and
+// remembers the prefixes it was derived with, so that the logger a `logger` point received tells the prefix the
+// container asked for (syslog.Pref(p) = root.Pref(p), cached per prefix).  Panic / Fatal do nothing, like the
+// library's own logger under hx.Quiet() as far as outcomes go (Panic is below LvFatal there).
+type prefLogger struct{ prefs []string }
+
+func (l *prefLogger) Level(syslog.Lv) syslog.Logger { return l }
+func (l *prefLogger) Pref(p any) syslog.Logger {
+	return &prefLogger{prefs: append(append([]string(nil), l.prefs...), fmt.Sprint(p))}
+}
+func (*prefLogger) Trace(...any)          {}
+func (*prefLogger) Tracef(string, ...any) {}
+func (*prefLogger) Debug(...any)          {}
+func (*prefLogger) Debugf(string, ...any) {}
+func (*prefLogger) Info(...any)           {}
+func (*prefLogger) Infof(string, ...any)  {}
+func (*prefLogger) Warn(...any)           {}
+func (*prefLogger) Warnf(string, ...any)  {}
+func (*prefLogger) Error(...any)          {}
+func (*prefLogger) Errorf(string, ...any) {}
+func (*prefLogger) Panic(...any)          {}
+func (*prefLogger) Panicf(string, ...any) {}
+func (*prefLogger) Fatal(...any)          {}
+func (*prefLogger) Fatalf(string, ...any) {}
+
+var loggerType = reflect.TypeOf((*syslog.Logger)(nil)).Elem()
+
+// describeLogger renders the logger a field holds: the prefix it was made for, with the name of the component the
+// field belongs to written as "@" (so that a shape and its flattened twin, two components, are comparable), and
+// whether it is THE logger syslog.Pref hands out for that prefix (one shared logger per prefix).
+func describeLogger(v reflect.Value, comp string) string {
+	l, ok := v.Interface().(*prefLogger)
+	if !ok {
+		return "?foreign:" + v.Elem().Type().String()
+	}
+	if len(l.prefs) != 1 {
+		return fmt.Sprintf("?derived%d:%s", len(l.prefs), strings.Join(l.prefs, "|"))
+	}
+	p := l.prefs[0]
+	out := p
+	if strings.HasPrefix(p, comp) {
+		out = "@" + p[len(comp):]
+	}
+	if syslog.Pref(p) != syslog.Logger(l) {
+		out += "!not-the-shared-logger-of-this-prefix"
+	}
+	return out
+}
+
+// dumpLoggers lists every non-nil field of type syslog.Logger below v with its path and describeLogger
+func dumpLoggers(v reflect.Value, path string, comp string, out *[][]string) {
+	for i := 0; i < v.NumField(); i++ {
+		sf := v.Type().Field(i)
+		f := open(v.Field(i))
+		p := sf.Name
+		if path != "" {
+			p = path + "." + sf.Name
+		}
+		switch {
+		case f.Kind() == reflect.Struct:
+			dumpLoggers(f, p, comp, out)
+		case f.Kind() == reflect.Ptr && f.Type() != depPtrType && f.Type().Elem().Kind() == reflect.Struct:
+			if !f.IsNil() {
+				dumpLoggers(f.Elem(), p, comp, out)
+			}
+		case f.Type() == loggerType && !f.IsNil():
+			*out = append(*out, []string{p, describeLogger(f, comp)})
+		}
+	}
+}
+
 // ---- shapes -----------------------------------------------------------------------------------------
 
 type Node struct {
@@ -136,6 +209,7 @@ type Snap struct {
 	Before [][]string `json:"before"`
 	After  [][]string `json:"after"`
 	Props  []propRec  `json:"props"`
+	Logs   [][]string `json:"logs"` // [path, prefix as describeLogger renders it] of every non-nil syslog.Logger field after Run
 }
 
 // a registered tag processor as found in the running App (facts read back from the real constructors)
@@ -353,8 +427,10 @@ func runCase(c Case) Out {
 	})
 	if out.Main != nil {
 		_ = hx.Guard(func() { dump(mainV.Elem(), "", &out.Main.After) })
+		_ = hx.Guard(func() { dumpLoggers(mainV.Elem(), "", out.Main.Name, &out.Main.Logs) })
 		if out.Flat != nil {
 			_ = hx.Guard(func() { dump(flatV.Elem(), "", &out.Flat.After) })
+			_ = hx.Guard(func() { dumpLoggers(flatV.Elem(), "", out.Flat.Name, &out.Flat.Logs) })
 		}
 		if rec != nil {
 			for _, r := range rec.recs {
@@ -429,6 +505,7 @@ func runChunk(cases []Case) []Out {
 
 func main() {
 	hx.Quiet()
+	syslog.SetLogger(&prefLogger{})
 	var in Input
 	hx.ReadInput(&in)
 	if os.Getenv("VERIF_C11_CHILD") == "1" {
